@@ -10,6 +10,7 @@ LEVEL = "proof"
 COQ_FILES = ["Tie/C01_defs.v", "Tie/C01_tie.v", "Props/C01_props.v", "Props/C01_dft_props.v"]
 PROPS_FILES = ["C01_props.v", "C01_dft_props.v"]
 TRUSTED_BASE = [
+    "vlib/symex.py (symbolic execution of the translated Python subset on the ast: the translator reads value / outcome trees, so local names, intermediates, helpers and the form of branches do not matter; its assumptions - pure expressions, opaque calls, no aliasing writes, try handlers not modelled - are listed in DESIGN.md 12.7; fail-closed)",
     "py2gallina unit 'shifts' (roll_one_dim narrow/cat arithmetic, fftshift / ifftshift amounts) and unit 'fft skeleton' (operation sequence of fft2 / ifft2 under the three flags)",
     "torch.fft.fftn / ifftn compute the textbook N-d DFT with the requested normalisation and are inverse to each other (contract; validated numerically against a float64 evaluation of the textbook centred DFT for lengths 1-9, and exactly for lengths 1, 2, 4 against the Gaussian-integer model evaluated in Coq)",
     "torch narrow / cat act on every 1-D fibre along `dim` (validated by exact correspondence on iota tensors of rank 1-5)",
